@@ -1,6 +1,6 @@
 SPECIFICATION Spec
 CONSTANTS
-  Writers = {w1, w2}
+  Writers = {1, 2}
   MaxOps = 2
   MaxNodes = 3
   OldLive = TRUE
